@@ -12,7 +12,13 @@ from mmsa import dataflow
 from mmsa.core import norm
 
 _FLIP = {ast.Lt: ast.Gt, ast.Gt: ast.Lt, ast.LtE: ast.GtE, ast.GtE: ast.LtE, ast.Eq: ast.Eq, ast.NotEq: ast.NotEq}
-_NP_METHODS = {'sum'}
+_NP_METHODS = {'sum', 'cumsum'}
+# leading parameters of a few library callables the rules look at (only as many as the rules read positionally)
+LIB_SIGS = {
+    'rvs': ['size'], 'percentile': ['a', 'q'], 'quantile': ['a', 'q'], 'nanpercentile': ['a', 'q'], 'ppf': ['q'], 'cdf': ['x'], 'sf': ['x'],
+    'comb': ['N', 'k'], 'combinations': ['iterable', 'r'], 'date_range': ['start', 'end'], 'isin': ['values'], 'Timestamp': ['ts_input'],
+    'deepcopy': ['x'],
+}
 
 
 class Canon:
@@ -56,6 +62,10 @@ class Canon:
     """The signature for a call by name; with several definitions of the name, the only one the call fits."""
     if name in self.sigs:
       return self.sigs[name]
+    if name in LIB_SIGS and name not in self.multi:
+      lib = LIB_SIGS[name]
+      # library callable: only the leading parameters are known; other keywords stay where they are
+      return lib + [k.arg for k in call.keywords if k.arg not in lib]
     fit = [s for s in self.multi.get(name, ()) if s != ['*'] and len(call.args) <= len(s) and all(k.arg in s for k in call.keywords)
            and len(call.args) + len(call.keywords) <= len(s)]
     if len(fit) == 1 and call.keywords:
@@ -105,7 +115,8 @@ class Canon:
           and len(e.args) <= len(sig) and all(k.arg in sig for k in e.keywords):
         kw = {k.arg: k.value for k in e.keywords}
         args = list(e.args)
-        while len(args) < len(sig) and sig[len(args)] in kw:
+        lib_lead = len(LIB_SIGS[name]) if (name in LIB_SIGS and name not in self.sigs and name not in self.multi) else None
+        while len(args) < len(sig) and sig[len(args)] in kw and (lib_lead is None or len(args) < lib_lead):
           args.append(kw.pop(sig[len(args)]))
         e.args = args
         e.keywords = [ast.keyword(arg=p, value=kw[p]) for p in sig if p in kw]
@@ -135,7 +146,8 @@ def canonicalise_repo(repo):
       kw = {k.arg: k for k in node.keywords}
       args = list(node.args)
       moved = False
-      while len(args) < len(sig) and sig[len(args)] in kw:
+      lib_lead = len(LIB_SIGS[name]) if (name in LIB_SIGS and name not in cn.sigs and name not in cn.multi) else None
+      while len(args) < len(sig) and sig[len(args)] in kw and (lib_lead is None or len(args) < lib_lead):
         args.append(kw.pop(sig[len(args)]).value)
         moved = True
       order = [kw[p] for p in sig if p in kw]
